@@ -20,9 +20,11 @@ def ctor_traces() -> list[dict]:
     from . import plugins
 
     evs = []
-    for has_s in (False, True):
-        for has_sch in (False, True):
-            smp = [plugins.make_sampler({"cls": "A", "bs": 1}, 1)]
+    # (a sampler list that is given is given whatever it holds: an empty list / tuple next to a scheduler is still "both")
+    for has_s, has_sch, empty in [(False, False, None), (False, True, None), (True, False, None), (True, True, None),
+                                  (True, True, []), (True, True, ())]:
+        if True:
+            smp = [plugins.make_sampler({"cls": "A", "bs": 1}, 1)] if empty is None else empty
             kw = {}
             if has_s:
                 kw["samplers"] = smp
